@@ -109,4 +109,32 @@ CLAIMS = {
         "tolerated '>' is matched with beyond the LIFO discipline; position-specific value correctness (e.g. ']]' closing two subscripts).",
         "technique": "linear-use (typestate) analysis on the CFG; slice-count dataflow with interprocedural summaries; follower-set search",
     },
+    "C03": {
+        "level": "The stateful mechanism the statement singles out is decided: class-key default access by evaluation over the finite domain "
+        "{class, struct, union}; one value feeding bases and block; per-base flags re-initialised per iteration; who writes "
+        "ClassBlockState.access and who calls _set_access; every access-carrying dataclass (12 sites) built from self._current_access read "
+        "before the block push; _current_access reading only the per-block state; method/function trailer fields stored only under tests "
+        "admitting their own keywords; anonymous-id discipline.",
+        "note": "Not decided: constructor/destructor/operator recognition and qualifier values in general (runtime comparisons of names); "
+        "that every member is reported once and in order. Trusted: dataclass field tables; the keyword-to-field table in sa/props/c03.py.",
+        "technique": "finite-domain expression evaluation, ownership (who may write / call), guard analysis of keyword tests, per-iteration re-initialisation",
+    },
+    "C12": {
+        "level": "No-leak by ownership: five governed parser attributes and no others written after construction, loop-carried locals of the "
+        "top-level loop, nothing parked on state objects, per-iteration re-initialisation of flags handed to constructors, lookup-or-create "
+        "shape of on_namespace_start (five obligations incl. descend-on-every-iteration and start-at-parent-scope), extern aliasing, and "
+        "the whole-package shared-state audit.",
+        "note": "Not decided: the concatenation equation itself (result equality is a runtime relation).",
+        "technique": "ownership audit, reaching-definitions / liveness across the loop back edge, must-pass-through on the namespace walk",
+    },
+    "C15": {
+        "level": "Whole-package audit of everything that outlives a parse: 55 module-/class-level mutable objects and every one of their uses "
+        "classified (read-only contexts only; two reasoned exceptions), local aliases and mutable defaults included; prototype-lexer "
+        "discipline (assigned once under is-None, only cloned with an instance, clone re-bound with begin('INITIAL'), Lexer.clone un-shares "
+        "rule and error tables, no shared-table mutators called); per-instance creation of every attribute written later; no global "
+        "writes; tokens never mutated in parser.py.",
+        "note": "Decided structurally: with no shared mutable state, sequences, nesting and thread interleavings need no further argument "
+        "(the GIL is not relied on). Trusted: CPython semantics of class attributes / default arguments.",
+        "technique": "effect / ownership audit over the resolved package (who may mutate what), ordering by dominance in PlyLexer.__new__",
+    },
 }
